@@ -126,6 +126,23 @@ def run(tier, seed, t0):
             if r['pulled'] not in (None, 0) and int(r['pulled']) > 4:
                 failures.append({'class': 'zst-read-first', 'key': r['type'],
                                  'what': 'more than the length prefix (%s bytes) was pulled from the reader before the ZST refusal: %s %s [%s]' % (r['pulled'], r['mode'], r['type'], cfg)})
+        # (2b) element types built from an UNINHABITED type (`enum Never {}`, Option<Never>, Result<(), Never>, [Never; 3]):
+        # they occupy no memory, the model's universe does not have them (`wf` wants a variant), so the first sentence of
+        # the property is judged on the implementation alone
+        if cfg.startswith('std'):
+            r = run_cases(exe, [case_line('nv', 'nevercolls', '-', '-')]).get('nv') or 'no answer'
+            stats['evaluations'] += 1
+            parts = r.split('|')
+            stats['uninhabited_element_collections'] = len(parts) - 1
+            for part in parts[:-1]:
+                f = dict(x.split('=', 1) for x in part.replace('err InvalidData', 'err_InvalidData').split(' ')[1:] if '=' in x)
+                if not all(f.get(k, '').startswith('err_InvalidData') for k in ('ser', 'de0', 'de1')):
+                    failures.append({'class': 'zst-accepted', 'key': part.split(' ')[0],
+                                     'what': 'a collection whose element type occupies no memory (it is built from an uninhabited type) is not refused with InvalidData in both directions: %s [%s]' % (part, cfg),
+                                     'cfg': cfg, 'replay_cmd': "printf 'n\\tnevercolls\\t-\\t-\\n' | " + exe})
+            if len(parts) < 7 or not parts[-1].startswith('Option<Never> ser=ok [0] de0=ok true de1=err'):
+                failures.append({'class': 'zst-unusable', 'key': 'Option<Never>',
+                                 'what': 'Option<Never> must stay usable (None is one zero byte; a Some is refused): %s [%s]' % (parts[-1], cfg), 'cfg': cfg})
         # (3) usable neighbours: arrays / tuples / options / wrappers of ZSTs round trip
         usable = [(tid, t) for tid, t in tmap.items() if flt(t) and can_de(t) and any(mem_zst(s) for s in subterms(t))
                   and not any(s[0] == 'seq' and s[1] in GUARDED and mem_zst(s[2][2][0] if s[1] in MAP_KINDS else s[2]) for s in subterms(t))]
